@@ -10,6 +10,9 @@ class Opaque(object):
     """An arbitrary host object the library knows nothing about."""
     __slots__ = ()
 
+    def __repr__(self):          # no id() in the rendering: outcomes must not depend on addresses
+        return '<opaque host object>'
+
 
 def enc(v):
     """Python value -> tagged JSON (only for the types in the pool)."""
